@@ -105,4 +105,7 @@ PROPS["C08"] = {
 PROPS["C09"] = dict(PROPS["C08"], level_text="As C08 with 1..4 open/close sessions and reopening with fresh templates: durability after Flush/Close is REFUTED on the faithful model (theorem + witness add;Close;reopen;search), reproduced as a KNOWN-FINDING; 'segment identifiers are never reused' is proved for flush and compaction (invariant: all ids <= counter, pairwise distinct) and the reopen counter is the maximum id of any file name.")
 PROPS["C09"]["correspondence"] = "storage.go/storage_provider.go/storage_segment.go ~ Model.Store (reopen = open_store over the directory listing)"
 
+PROPS["C10"] = dict(PROPS["C08"], level_text="Crash images are taken by a verif handler at every file-operation boundary of flushMemtable / writeIndexToSegment / compactSegments / deleteSegment (create x4, close, before/after registration, before drop, unregister, each file removal) plus synthetic byte-prefixes of the file being written in close order; each image is reopened by the real code with fresh templates and searched, and compared with the faithful model (segment files complete / truncated / payload-complete-truncated / empty / missing) and with the specification (everything covered by a completed Flush is found, nothing never-added or from an incomplete segment appears, reopening and searching never fail). Theorems: a segment with a broken/missing/empty hybrid or component file is ignored without touching the shared states and is never cached; identifiers are not reused; the half-load through a truncated LATER component is refuted with a witness.")
+PROPS["C10"]["correspondence"] = "storage.go flush/compaction + storage_segment.go getIndex + storage_provider.go ~ Model.Store (load_segment, open_store)"
+
 NOT_YET = {}
